@@ -15,7 +15,7 @@ sys.unraisablehook = lambda *args: None   # silence GC-time clean-up of abandone
 
 import usim
 from usim import Scope, until, time, Flag, Lock, instant, Concurrent, TaskCancelled, \
-    TaskClosed, CancelTask
+    TaskClosed, CancelTask, Queue, Channel, StreamClosed
 from usim._core.loop import Interrupt, Loop
 from usim._primitives.context import CancelScope, ScopeClosed
 
@@ -40,13 +40,19 @@ class LivelockAbort(BaseException):
 
 
 class World:
-    def __init__(self, prog, nroots, nflags=2, nlocks=2, max_turns=5000):
+    def __init__(self, prog, nroots, nflags=2, nlocks=2, max_turns=5000, nqueues=2, nchans=2):
         # prog: list of op lists, index a-1
         self.prog = prog
         self.nroots = nroots
         self.log = []
         self.flags = {f + 1: Flag() for f in range(nflags)}
         self.locks = {i + 1: Lock() for i in range(nlocks)}
+        self.queues = {i + 1: Queue() for i in range(nqueues)}
+        self.chans = {i + 1: Channel() for i in range(nchans)}
+        self.stream_id = {id(q): ('q', i) for i, q in self.queues.items()}
+        self.stream_id.update({id(c): ('ch', i) for i, c in self.chans.items()})
+        self.iters = {}       # (activity, channel) -> async iterator of a consumer
+        self.nitem = 0
         self.tasks = {}       # k -> Task
         self.task_id = {}     # id(Task) -> k
         self.scopes = {}      # s -> Scope
@@ -82,6 +88,10 @@ class World:
             return ['tcancelled', self.task_id.get(id(err.subject), 0)]
         if isinstance(err, TaskClosed):
             return ['tclosed', ctx_task]
+        if isinstance(err, StreamClosed):
+            return ['streamclosed'] + list(self.stream_id.get(id(err.stream), ('?', 0)))
+        if isinstance(err, StopAsyncIteration):
+            return ['stopiter']
         if isinstance(err, ScopeClosed):
             return ['scopeclosed', self.scope_id.get(id(err.scope), 0)]
         if isinstance(err, GeneratorExit):
@@ -247,6 +257,86 @@ class Puppet:
                 usim.TaskState.SUCCESS: 'success'}.get(st, str(st))
         self.emit('p', op='status', k=op['k'], v=name)
 
+    # ------------------------------------------------------------ streams
+    def new_item(self, stream):
+        if stream.closed:
+            return 0
+        self.w.nitem += 1
+        return self.w.nitem
+
+    async def leafv(self, op, awaitable_factory, args, tag):
+        """leaf op that returns a value"""
+        name = op['op']
+        self.emit('b', op=name, **args)
+        try:
+            value = await awaitable_factory()
+        except (Exception, Concurrent) as err:
+            self.emit('x', op=name, exc=self.w.enc(err), **tag)
+        except BaseException as err:
+            self.emit('u', op=name, exc=self.w.enc(err), **tag)
+            raise
+        else:
+            self.emit('r', op=name, v=value, **tag)
+
+    async def op_put(self, op):
+        q = self.w.queues[op['q']]
+        v = self.new_item(q)
+
+        async def f():
+            await q.put(v)
+        await self.leaf(op, f, {'q': op['q'], 'v': v})
+
+    async def op_qclose(self, op):
+        async def f():
+            await self.w.queues[op['q']].close()
+        await self.leaf(op, f, {'q': op['q']})
+
+    async def op_get(self, op):
+        async def f():
+            return await self.w.queues[op['q']]
+        await self.leafv(op, f, {'q': op['q']}, {'q': op['q']})
+
+    async def op_cput(self, op):
+        c = self.w.chans[op['c']]
+        v = self.new_item(c)
+
+        async def f():
+            await c.put(v)
+        await self.leaf(op, f, {'c': op['c'], 'v': v})
+
+    async def op_cclose(self, op):
+        async def f():
+            await self.w.chans[op['c']].close()
+        await self.leaf(op, f, {'c': op['c']})
+
+    async def op_cget(self, op):
+        async def f():
+            return await self.w.chans[op['c']]
+        await self.leafv(op, f, {'c': op['c']}, {'c': op['c']})
+
+    async def op_cnext(self, op):
+        key = (self.a, op['c'])
+
+        async def f():
+            it = self.w.iters.get(key)
+            if it is None:
+                it = self.w.iters[key] = self.w.chans[op['c']].__aiter__()
+            try:
+                return await it.__anext__()
+            except BaseException:
+                self.w.iters.pop(key, None)     # the generator is finished
+                raise
+        await self.leafv(op, f, {'c': op['c']}, {'c': op['c']})
+
+    async def op_cstop(self, op):
+        it = self.w.iters.pop((self.a, op['c']), None)
+        if it is not None:
+            try:
+                await it.aclose()
+            except RuntimeError:
+                pass
+        self.emit('p', op='cstop', c=op['c'])
+
     # ------------------------------------------------------------ block ops
     async def op_enter(self, op):
         lock = self.w.locks[op['l']]
@@ -321,9 +411,9 @@ def install_livelock_guard():
     Loop._verif_guard = True
 
 
-def run_program(prog, nroots, nflags=2, nlocks=2, start=0):
+def run_program(prog, nroots, nflags=2, nlocks=2, start=0, nqueues=2, nchans=2):
     """execute one program on the real usim; returns (events, outcome)"""
-    world = World(prog, nroots, nflags, nlocks)
+    world = World(prog, nroots, nflags, nlocks, nqueues=nqueues, nchans=nchans)
     roots = [Puppet(world, a + 1).main() for a in range(nroots)]
     outcome = {'k': 'ok'}
     try:
@@ -350,8 +440,24 @@ def run_program(prog, nroots, nflags=2, nlocks=2, start=0):
     fin = {'e': 'fin', 'a': 0, 'ok': outcome['k'] == 'ok', 'out': outcome}
     if outcome['k'] == 'ok':
         fin['free'] = probe_locks(world)
+        fin['drain'] = drain_queues(world)
     world.log.append(fin)
     return world.log, outcome
+
+
+def drain_queues(world):
+    """what a fresh consumer can still receive from every queue (fresh simulation, public API)"""
+    res = {i: [] for i in world.queues}
+
+    async def drain(i):
+        async with until(time + 1):
+            while True:
+                res[i].append(await world.queues[i])
+    try:
+        usim.run(*[drain(i) for i in sorted(world.queues)])
+    except BaseException:
+        pass
+    return [res[i] for i in sorted(res)]
 
 
 def probe_locks(world):
